@@ -120,7 +120,10 @@ def gen_wire_cases(rng, n, big, ops=('unpack', 'acc')):
             for _ in range(2):
                 knobs = {'pad': rng.random() < 0.6, 'flip_packed': rng.random() < 0.5, 'split_packed': rng.random() < 0.5,
                          'stale': rng.random() < 0.5, 'shuffle': rng.random() < 0.6, 'empty_packed': rng.random() < 0.4,
-                         'multi_oneof': rng.random() < 0.4, 'omit_req_dflt': rng.random() < 0.4}
+                         'multi_oneof': rng.random() < 0.4, 'omit_req_dflt': rng.random() < 0.4,
+                         # embedded messages occurring more than once: the parser merges them (every path of merge_messages is
+                         # reachable from hostile or merely unusual input, seeded change S75)
+                         'multi_occ': rng.random() < 0.35, 'split_msg': rng.random() < 0.35}
                 encs.append(('knobbed', encode(sch, m, rng, knobs)))
             base = encs[rng.randrange(len(encs))][1]
             for _ in range(3):
